@@ -142,6 +142,10 @@ def run_harnesses(names, tier='quick'):
                     out['obligations'] += 1
                     if r['status'] == 'SUCCESSFUL':
                         out['discharged'] += 1
+                    elif r['status'] == 'FAILED' and r.get('failed') and all('unwinding assertion' in x for x in r['failed']):
+                        # only the unwinding bound of the harness was exceeded: the harness does not cover this tree - undecided, never an alarm
+                        entry['result'] = 'undecided'
+                        out['undecided'].append('kx/%s: unwinding bound of the harness exceeded (%s)' % (h['name'], '; '.join(r['failed'][:3])))
                     elif r['status'] == 'FAILED':
                         desc = '; '.join(r.get('failed', [])[:4])
                         out['violations'].append({'engine': 'kx', 'key': 'kx:%s' % h['name'], 'what': 'Kani harness %s (%s) failed: %s' % (h['name'], h.get('claims', ''), desc),
